@@ -36,6 +36,20 @@ def run(tier):
             pools.append((n, [rng.randrange(1 << n) + impl.W * rng.randrange(1 << n) + impl.W2 * rng.randrange(2) for _ in range(n)]))
     for s in models.clifford_states(ck, 3, signed=True, dump=True, invariants=("TypeOK",)):
         pools.append((3, s["tab"]))
+    # boundary patterns: a constant-letter operator (I..I, X..X, Y..Y, Z..Z) with either sign in every position of the list, the rest random; and
+    # operators that differ from a constant-letter one on a single qubit
+    for n in range(2, 7):
+        full = (1 << n) - 1
+        for (x, z) in ((0, 0), (full, 0), (full, full), (0, full)):
+            for sgn in (0, 1):
+                for pos in range(n):
+                    lst = [rng.randrange(1 << n) + impl.W * rng.randrange(1 << n) + impl.W2 * rng.randrange(2) for _ in range(n)]
+                    lst[pos] = x + impl.W * z + impl.W2 * sgn
+                    pools.append((n, lst))
+                    q = rng.randrange(n)
+                    lst2 = list(lst)
+                    lst2[pos] = (x ^ (rng.randrange(2) << q)) + impl.W * (z ^ (1 << q)) + impl.W2 * sgn
+                    pools.append((n, lst2))
     for i, (n, codes) in enumerate(pools):
         style = ["always", "minus", "none"][i % 3]
         strs = [impl.code_to_str(c if style != "none" else c % impl.W2, n, "minus" if style == "none" else style) for c in codes]
